@@ -51,7 +51,7 @@ func (c *Ctx) handshakeHelpers() map[string]*ssa.Function {
 	}
 	cands := map[string][]*ssa.Function{}
 	for _, fn := range c.LibFuncs() {
-		if fn.Pkg == nil || fn.Pkg.Pkg.Path() != modPath || fn.Signature.Results().Len() != 2 || fn.Parent() != nil {
+		if fn.Pkg == nil || !c.libFn(fn) || fn.Signature.Results().Len() != 2 || fn.Parent() != nil {
 			continue
 		}
 		for k, n := range want {
